@@ -77,7 +77,8 @@ SDL2 = '''
 type Query { node(id: ID!): Node things: [Thing!]! user(f: Filter, c: Color, d: Date): User! search(kind: Kind): [Thing] }
 type Mutation { save(input: SaveInput!): User! }
 interface Node { id: ID! }
-type User implements Node { id: ID! name: String color: Color kind: Kind born: Date friends: [User!] }
+interface Named implements Node { id: ID! name: String }
+type User implements Node & Named { id: ID! name: String color: Color kind: Kind born: Date friends: [User!] }
 type Bot implements Node { id: ID! model: String! kind: Kind }
 type Dog implements Node { id: ID! barks: Boolean! }
 type Cat implements Node { id: ID! lives: Int }
@@ -95,6 +96,7 @@ Q2 = '''
 query GetNode($id: ID!) { node(id: $id) { id ...UserF ... on Bot { model kind } ... on Dog { barks } } }
 query Things { things { __typename ... on User { ...UserF ...UserG } ... on Cat { lives } ... on Bot { ...BotF } } }
 query GetUser($f: Filter, $c: Color, $d: Date) { user(f: $f, c: $c, d: $d) { ...All } }
+query NodeAbs($id: ID!) { node(id: $id) { id ... on Named { name } ... on Dog { barks } } }
 query Search($kind: Kind) { search(kind: $kind) { ... on User { name } ... on Dog { barks } } }
 mutation Save($input: SaveInput!) { save(input: $input) { id born } }
 fragment UserF on User { id name }
@@ -220,7 +222,7 @@ def child_run(strategy, perm, salt, split, pre, plugins, rev, pre_files=None):
 
     args = json.dumps([strategy, perm, salt, split, pre, plugins, rev, pre_files])
     env = dict(os.environ)
-    env["PYTHONPATH"] = "/verif"
+    env["PYTHONPATH"] = "/verif" + (":" + os.environ["VERIF_REPO"] if os.environ.get("VERIF_REPO") else "")
     p = subprocess.run([sys.executable, "-c", "import sys, json; from harness import C10_order as H; H.child_main(json.loads(sys.argv[1]))", args],
                        capture_output=True, text=True, env=env, timeout=300)
     if "@@OUT@@" not in p.stdout:
